@@ -21,6 +21,16 @@ CoderDist == {4, 5, 6, 7, 8, 9, 12, 13, 16, 17, 24, 25, 32, 33, 48, 49, 64, 65, 
 DistSet == {1, Avail} \cup (IF Avail >= 2 THEN {2, Avail - 1, (Avail + 1) \div 2} ELSE {}) \cup {RandomElement(1..Avail)}
            \cup {rep[g] : g \in {k \in 1..4 : rep[k] <= Avail}}
            \cup (LET c == {d \in CoderDist : d <= Avail} IN IF c = {} THEN {} ELSE {RandomElement(c), RandomElement(c)})
+(* What the distance coder distinguishes, as the format defines it (d0 = distance - 1):       *)
+(* slots 0..3 are d0 itself; otherwise slot = 2*e + (bit e-1 of d0) with e = floor(log2 d0).  *)
+RECURSIVE Log2(_)
+Log2(x) == IF x <= 1 THEN 0 ELSE 1 + Log2(x \div 2)
+Slot(d0) == IF d0 < 4 THEN d0 ELSE LET e == Log2(d0) IN 2 * e + ((d0 \div (2 ^ (e - 1))) % 2)
+AlignBits(d0) == d0 % 16                         \* coded with the align tree from slot 14 on
+(* the generator's classes reach every slot up to 4096, and both extreme align values *)
+ASSUME \A sl \in 4..23 : \E d \in CoderDist : Slot(d - 1) = sl
+ASSUME \E d \in CoderDist : Slot(d - 1) >= 14 /\ AlignBits(d - 1) = 15
+ASSUME \E d \in CoderDist : Slot(d - 1) >= 14 /\ AlignBits(d - 1) = 0
 (* Lengths: both sides of the length coder's bucket boundaries (2..9 | 10..17 | 18..273).    *)
 LenSet  == {2, 3, 4, 8, 9, 10, 11, 17, 18, 19, 272, 273, RandomElement(2..273), RandomElement(2..40)}
 (* Logged parameters are read back from the state change, because TLC may  *)
